@@ -6,8 +6,10 @@ DEFAULT_TIMEOUT = {"quick": 900, "thorough": 3000}
 # regex on the demangled function name (or the loop id) -> unwind bound for that loop.
 # First match wins (harness-specific rules are tried after these defaults).
 DEFAULT_LOOP_RULES = {
-    r"^memcmp\.": 43,
 }
+# memcmp's loop belongs to the CPROVER library (added by cbmc at verification time, so it is not
+# in the goto binary's loop list); 43 > the longest byte string compared (41-byte namespace URI)
+ALWAYS_UNWINDSET = ["memcmp.0:43"]
 
 COMMON_ASSUMPTIONS = [
     "verification build: /repo sources copied verbatim; only `std::collections` paths rewritten to the slot-array vcollections model; harness modules appended under cfg(kani)",
@@ -24,9 +26,9 @@ AGENT = "bgpfu-junos-agent"
 MODULES = [
     (r"^c0[67]_tls_", "transport::tls::verif_tls"),
     (r"^c0[67]_junos_local_", "transport::junos_local::verif_junos_local"),
-    (r"^c0[67]_ssh_", "transport::ssh::verif_ssh"),
+    (r"^c0[67]_ssh_|^c20_password", "transport::ssh::verif_ssh"),
     (r"^c09_|^c05_|^c18_|^c12_negotiation", "session::verif_session"),
-    (r"^c12_server_hello", "message::hello::verif_hello"),
+    (r"^c12_server_hello|^c12_capability", "message::hello::verif_hello"),
     (r"^c08_load_configuration", "message::rpc::operation::junos::load_configuration::verif_load"),
     (r"^c08_rpc_error_reader", "message::rpc::error::verif_error"),
     (r"^c08_|^c13_empty_reply|^c13_partial_reply|^c14_reply|^cal_nothing", "message::rpc::verif_replies"),
@@ -144,6 +146,10 @@ _C09 = [
     ("c09_operation_new_gate", ["Operation::new (trait default method, instantiated for DiscardChanges)"]),
     ("c09_junos_ops", ["OpenConfiguration::new", "CloseConfiguration::new", "LockConfiguration::new", "UnlockConfiguration::new", "CommitConfiguration::new"]),
 ]
+# quick tier: one harness per operation family / mechanism; thorough tier: all of them
+_C09_QUICK = {"c09_get_op", "c09_get_config_candidate", "c09_lock_unlock", "c09_commit_persist", "c09_simple_ops",
+              "c09_validate_candidate_startup", "c09_delete_config", "c09_copy_config_to_candidate", "c09_edit_config_target",
+              "c09_edit_config_test_only", "c09_edit_config_error_option", "c09_operation_new_gate", "c09_junos_ops"}
 CHECKS["C09"] = {
     "crates": ["netconf"],
     "explanation": "Operation::new's two halves (the REQUIRED_CAPABILITIES gate and the builder run: every builder method and finish() of each "
@@ -157,7 +163,8 @@ CHECKS["C09"] = {
                     "the :url scheme list always has three entries, a scheme that is not advertised being replaced by a junk scheme of the same length"],
     "harnesses": [
         harness(n, functions=f, bounds=C09_BOUNDS, target="c09_%d" % (i % 8), mem_gb=24,
-                **({"tiers": ["thorough"], "timeout": {"thorough": 3600}} if n.startswith("c09_url") else {}))
+                **({"tiers": ["thorough"], "timeout": {"thorough": 3600}} if n.startswith("c09_url") else
+                   {} if n in _C09_QUICK else {"tiers": ["thorough"]}))
         for i, (n, f) in enumerate(_C09)
     ],
 }
@@ -177,23 +184,25 @@ READER_LOOPS = {
 CHECKS["C08"] = {
     "crates": ["netconf"],
     "explanation": "Each reply reader (EmptyReply, DataReply<Opaque>, BareReply, load_configuration::Reply) is executed symbolically over every "
-                   "reply of up to 2 (thorough: 3) grammar items (ok as <ok/> or <ok></ok>, rpc-error with severity error or warning, comment, "
+                   "reply of up to 2 grammar items (quick: <ok/>, <data>, rpc-error(error), rpc-error(warning); thorough: all 9 kinds) (ok as <ok/> or <ok></ok>, rpc-error with severity error or warning, comment, "
                    "unexpected element, <ok/> in a foreign namespace, <data>, stray text; inside load-configuration-results also "
                    "load-error-count 0..3), compositional: rpc::Error::read_xml is replaced by a summary stub in the outer-reader harnesses "
                    "and checked on its own in c08_rpc_error_reader.",
     "assumptions": ["event-level: the quick-xml model replays event tapes; byte-level tokenisation is quick-xml's",
                     "summary stub for rpc::Error::read_xml (consumes the element, returns the severity the tape declares); justified by c08_rpc_error_reader",
+                    "summary stub for Opaque::read_xml in c08_data_reply (consumes the element); the real one is checked in c08_opaque_reader",
                     "Errors::new / Errors::push (one-line Vec wrappers) replaced by a preallocated, never-reallocating version that asserts len < 4"],
     "harnesses": [
-        harness("c08_empty_reply", functions=["EmptyReply::read_xml"], bounds="<=2 items from the 9-item reply grammar", deep_bounds="<=3 items", deep=True,
+        harness("c08_empty_reply", functions=["EmptyReply::read_xml"], bounds="<=2 items from {<ok/>, rpc-error(error), rpc-error(warning), <data>}", deep_bounds="<=2 items from the full 9-kind reply grammar", deep=True,
                 loops=READER_LOOPS, stubbing=True, mem_gb=30),
-        harness("c08_data_reply", functions=["DataReply::<Opaque>::read_xml", "Opaque::read_xml"], bounds="<=2 items", deep_bounds="<=3 items", deep=True,
+        harness("c08_data_reply", functions=["DataReply::<Opaque>::read_xml", "Opaque::read_xml"], bounds="<=2 items from the 4 quick kinds", deep_bounds="<=2 items from the full 9-kind grammar", deep=True,
                 loops=READER_LOOPS, stubbing=True, mem_gb=30),
-        harness("c08_bare_reply", functions=["junos::BareReply::read_xml"], bounds="<=2 items", deep_bounds="<=3 items", deep=True,
+        harness("c08_opaque_reader", functions=["operation::Opaque::read_xml"], bounds="<data>x</data> closed / unterminated", loops=READER_LOOPS, mem_gb=30),
+        harness("c08_bare_reply", functions=["junos::BareReply::read_xml"], bounds="<=2 items from the 4 quick kinds", deep_bounds="<=2 items from the full 9-kind grammar", deep=True,
                 loops=READER_LOOPS, stubbing=True, mem_gb=30),
         harness("c08_load_configuration_reply", functions=["junos::load_configuration::Reply::read_xml"],
-                bounds="<load-configuration-results> present or absent, <=2 inner items (ok, ok pair, rpc-error error/warning, load-error-count 0..3, comment, other)",
-                deep_bounds="... <=3 inner items", deep=True, loops=READER_LOOPS, stubbing=True, mem_gb=30),
+                bounds="<load-configuration-results> present or absent, <=2 inner items from {<ok/>, rpc-error error/warning, load-error-count 1}",
+                deep_bounds="... <=2 inner items from the full set (adds <ok></ok>, count 3, comment, other)", deep=True, loops=READER_LOOPS, stubbing=True, mem_gb=30),
         harness("c08_rpc_error_reader", functions=["rpc::Error::read_xml", "Type/Tag/Severity::from_str"],
                 bounds="three mandatory children in all 6 orders, each present/absent, 4 severity texts", loops=READER_LOOPS, mem_gb=30,
                 timeout={"quick": 1500, "thorough": 3600}),
@@ -222,6 +231,7 @@ CHECKS["C05"] = {
                    "for a pending request; the waiter suspends only if its request is pending and the transport is drained.  A second harness "
                    "covers the lock hand-over between two waiters.",
     "assumptions": ["histories are covered through the one-step induction from an arbitrary valid map state, not by unrolling schedules",
+                    "the subject is the session bookkeeping: PartialReply::read_xml (phase 1) and Opaque::read_xml are replaced by summary stubs that take message-id and data from the tape; ServerMsg::recv/from_xml, Reply::read_xml, DataReply::read_xml, MessageId::try_from and Reply::try_from run for real; the readers themselves are C08/C14's subject",
                     "std::str::from_utf8 replaced by a trusting stub (inputs are the one-byte tape selectors); tokio Mutex model",
                     "uniqueness of message-ids (MessageId::increment) is not covered by these harnesses"],
     "harnesses": [
@@ -241,6 +251,7 @@ CHECKS["C18"] = {
     "explanation": "Session::recv futures are created, polled to a suspension point and dropped; afterwards the locks must be free and the "
                    "other outstanding request must complete with its own reply once that arrives.",
     "assumptions": ["tokio Mutex model; in-memory transport whose receive buffer lives in the handle",
+                    "PartialReply::read_xml and Opaque::read_xml summarised as in C05",
                     "drop points covered: never polled, suspended in the transport read (lock holder), suspended on the map lock with a reply in hand"],
     "harnesses": [
         harness("c18_drop_while_waiting_for_transport", functions=["Session::recv (future drop glue)", "tokio::sync::Mutex guard release (model)"],
@@ -260,13 +271,16 @@ CHECKS["C12"] = {
                    "default hello against every server subset of {:base:1.0, :base:1.1, :candidate}, and the framing of the first request "
                    "against the negotiated version (RFC 6242 4.1/4.2).",
     "assumptions": ["event-level hello tapes; namespace prefix choice is resolved inside quick-xml",
+                    "Capability::from_str is replaced by a summary stub inside the hello reader harness and checked on concrete URIs in c12_capability_from_str",
                     "both orders of the simultaneous hello exchange are not distinguished (try_join! over a send that cannot fail)"],
     "harnesses": [
         harness("c12_negotiation_and_framing", functions=["ClientHello::default", "Capabilities::highest_common_version", "rpc::Request::to_xml (ClientMsg::to_xml)"],
                 bounds="server advertises any subset of {:base:1.0, :base:1.1, :candidate}", loops={r"write_escaped|from_slice|Inline": 45}),
         harness("c12_server_hello_reader", functions=["ServerHello::read_xml", "Capabilities::read_xml", "Capability::from_str", "SessionId::from_str"],
                 bounds="capabilities present/absent x base1.0 x base1.1; session-id absent/once/twice, 6 texts, before or after capabilities",
-                loops=READER_LOOPS, timeout={"quick": 1500, "thorough": 3600}, mem_gb=30),
+                loops=READER_LOOPS, stubbing=True, timeout={"quick": 1500, "thorough": 3600}, mem_gb=30),
+        harness("c12_capability_from_str", functions=["Capability::from_str", "iri_string::types::UriStr::new"],
+                bounds="8 concrete URIs (all standard capabilities' shapes, Junos, unknown, invalid)", timeout={"quick": 1500, "thorough": 3600}, mem_gb=30),
     ],
 }
 
@@ -294,6 +308,18 @@ CHECKS["C14"] = {
     "harnesses": [
         harness("c14_reply_arbitrary_events", functions=["ServerMsg::from_xml", "Reply::read_xml", "MessageId::try_from", "EmptyReply::read_xml"],
                 bounds="<=4 arbitrary cells", loops=READER_LOOPS, stubbing=True, timeout={"quick": 1500, "thorough": 3600}, mem_gb=30),
+    ],
+}
+
+CHECKS["C20"] = {
+    "crates": ["netconf"],
+    "explanation": "Narrow claim: the hand-written Debug impl of transport::Password is executed symbolically for every 2-byte ASCII secret and "
+                   "its output must be the constant Password(\"****\") - the mechanism by which #[instrument]ed constructors and ?password "
+                   "fields keep the SSH password out of the log.",
+    "assumptions": ["NOT covered: which arguments the #[tracing::instrument] attributes skip (TLS key material), rustls' Debug for ClientConfig, "
+                    "russh internals, the agent's logging of paths - the tracing model records nothing"],
+    "harnesses": [
+        harness("c20_password_debug_is_redacted", functions=["<transport::Password as Debug>::fmt"], bounds="every 2-byte ASCII secret"),
     ],
 }
 
